@@ -52,7 +52,7 @@ func init() {
 		Technique: "debug",
 		Quick: func() []eng.Instance {
 			return []eng.Instance{
-				{Name: "dbg/Map/Store", Pkg: "xsync", Func: "VxH_Map_step", Args: []int64{1, 1, 1, 1}, Cfg: eng.Config{DefaultUnwind: 8}},
+				{Name: "dbg/Map/Store", Pkg: "xsync", Func: "VxH_Map_step", Args: []int64{1, 1, 1, 1, 0}, Cfg: eng.Config{DefaultUnwind: 8}},
 			}
 		},
 	})
@@ -60,15 +60,15 @@ func init() {
 
 var mapOps = []string{"Load", "Store", "LoadOrStore", "LoadAndStore", "LoadOrCompute", "Compute", "LoadAndDelete", "Delete", "Clear", "Range", "Size"}
 
-type shape struct{ tableLen, chain, minLen int }
+type shape struct{ tableLen, chain, minLen, mode int }
 
 func mapStepInstances(prefix, fn string, shapes []shape, ops []int) []eng.Instance {
 	var is []eng.Instance
 	for _, sh := range shapes {
 		for _, op := range ops {
 			is = append(is, eng.Instance{
-				Name: fmt.Sprintf("%s/S(len=%d,chain=%d,min=%d)/%s", prefix, sh.tableLen, sh.chain, sh.minLen, mapOps[op]),
-				Pkg:  "xsync", Func: fn, Args: []int64{int64(op), int64(sh.tableLen), int64(sh.chain), int64(sh.minLen)},
+				Name: fmt.Sprintf("%s/S(len=%d,chain=%d,min=%d,mode=%d)/%s", prefix, sh.tableLen, sh.chain, sh.minLen, sh.mode, mapOps[op]),
+				Pkg:  "xsync", Func: fn, Args: []int64{int64(op), int64(sh.tableLen), int64(sh.chain), int64(sh.minLen), int64(sh.mode)},
 				Cfg: eng.Config{DefaultUnwind: 8},
 			})
 		}
@@ -85,7 +85,7 @@ func init() {
 		Stubs:     commonStubs,
 		Outside:   []string{"tables longer than 2 buckets before / 4 after the step", "chains longer than 2 buckets in the pre-state", "size hints (constructor arithmetic) - separate harness"},
 		Quick: func() []eng.Instance {
-			return mapStepInstances("C11/Map/step", "VxH_Map_step", []shape{{1, 1, 1}, {2, 1, 1}, {1, 2, 1}}, allOps)
+			return mapStepInstances("C11/Map/step", "VxH_Map_step", []shape{{1, 1, 1, 0}, {2, 1, 1, 1}, {1, 2, 1, 1}}, allOps)
 		},
 	})
 }
